@@ -1,5 +1,6 @@
 import DirectVerif.Lemmas.C11Split
 import DirectVerif.Lemmas.C11Float
+import DirectVerif.Lemmas.C11History
 /-!
 # C11 — self-supervised mask splitting is a partition that honours ratio and ACS
 
@@ -590,7 +591,179 @@ theorem ssl_loss_support (cells : Nat) (i t : Grid) (k pred : List Int) (hc : 0 
     cell_gNot i _ hlt]
   cases cell t ((idx / 2) % cells) <;> cases cell i ((idx / 2) % cells) <;> simp
 
+/-! ## call histories on one splitter object; the seed across interpreter processes; admissible ratios -/
+
+/-- **History independence (the code as it is).**  A splitter object that keeps nothing between calls answers
+every call of every history exactly as a fresh object would, whatever it was asked before — same file and slice
+with another mask, other files with the same mask, batched or single calls (a batched call is the sequence of its
+samples).  `runHist none` is what the driver's `hist` operation executes. -/
+theorem history_independent {ι κ ο : Type} [BEq κ] (cap : Nat) (f : ι → ο) (c : List (κ × ο)) (xs : List ι) :
+    runHist none cap f c xs = xs.map f :=
+  runHist_none_eq cap f xs c
+
+/-- …for **every** write table that passes the decidable predicate `stateWritesOk` (`Bridge/C11.lean`:
+`state_writes_ok` for the table read from `/repo`) -/
+theorem history_independent_of_table {ο : Type} (t : List StateWrite) (h : stateWritesOk t = true) (cap : Nat)
+    (f : SampleIn → ο) (c : List (List (List Nat) × ο)) (xs : List SampleIn) :
+    runHist ((memoOfTable t).map keyOf) cap f c xs = xs.map f := by
+  unfold memoOfTable
+  rw [h]
+  exact runHist_none_eq cap f xs c
+
+/-- **A memo of split results is invisible when its key determines the split** — for every bound of the LRU
+dictionary, every history, every consistent initial content -/
+theorem memo_invisible_of_key_complete {ο : Type} (parts : List KeyPart) (cap : Nat) (f : SampleIn → ο)
+    (hk : ∀ x y, (∀ p ∈ parts, partOf x p = partOf y p) → f x = f y) (xs : List SampleIn) :
+    runHist (some (keyOf parts)) cap f [] xs = xs.map f :=
+  runHist_complete (keyOf parts) cap f (fun x y h => hk x y ((keyOf_eq_iff parts x y).mp h)) xs []
+    (fun _ he => by cases he)
+
+/-- the key (file name, slice, mask, ACS mask) is complete for every split function -/
+theorem full_key_complete (x y : SampleIn)
+    (h : ∀ p ∈ [KeyPart.filename, .slice, .mask, .acs], partOf x p = partOf y p) : x = y := by
+  have h1 := h .filename (by simp)
+  have h2 := h .slice (by simp)
+  have h3 := bits_inj _ _ (h .mask (by simp))
+  have h4 := bits_inj _ _ (h .acs (by simp))
+  cases x; cases y
+  simp only [partOf] at h1 h2 h3 h4
+  simp [h1, h2, h3, h4]
+
+theorem memo_full_key_invisible {ο : Type} (cap : Nat) (f : SampleIn → ο) (xs : List SampleIn) :
+    runHist (some (keyOf [.filename, .slice, .mask, .acs])) cap f [] xs = xs.map f :=
+  memo_invisible_of_key_complete _ cap f (fun x y h => by rw [full_key_complete x y h]) xs
+
+/-- **…and visible otherwise**: if two samples agree on the key parts but split differently, the history
+`[x, y]` on one object answers `y` with the split of `x` (any bound ≥ 1) -/
+theorem memo_stale_of_key_incomplete {ο : Type} (parts : List KeyPart) (cap : Nat) (hcap : 1 ≤ cap) (f : SampleIn → ο)
+    (x y : SampleIn) (hxy : ∀ p ∈ parts, partOf x p = partOf y p) (hne : f x ≠ f y) :
+    runHist (some (keyOf parts)) cap f [] [x, y] = [f x, f x] ∧
+    runHist (some (keyOf parts)) cap f [] [x, y] ≠ [x, y].map f := by
+  have hkey : keyOf parts y = keyOf parts x := ((keyOf_eq_iff parts x y).mpr hxy).symm
+  have h1 : runHist (some (keyOf parts)) cap f [] [x, y] = [f x, f x] := by
+    have hc : ¬ (1 > cap) := by omega
+    simp [runHist, memoStep, hc, hkey]
+  refine ⟨h1, ?_⟩
+  rw [h1]
+  intro h
+  simp only [List.map_cons, List.map_nil, List.cons.injEq, and_true, true_and] at h
+  exact hne h
+
+/-- the witness of that kind of regression on the model's own half split: a memo keyed by (file name, slice)
+answers the second mask of the same slice with the split of the first — `input ∪ target` is not the mask -/
+theorem memo_without_mask_violates :
+    let f : SampleIn → Grid × Grid := fun s => halfSplit .vertical [] [] false 0 0 2 2 s.mask s.acs
+    let x : SampleIn := { filename := [102], slice := [49], mask := [true, true, false, true], acs := zeros 4 }
+    let y : SampleIn := { filename := [102], slice := [49], mask := [true, false, true, true], acs := zeros 4 }
+    (runHist (some (keyOf [.filename, .slice])) 4096 f [] [x, y]).map (fun r => gOr r.1 r.2) = [x.mask, x.mask] ∧
+    x.mask ≠ y.mask := by decide
+
+/-- **Determinism across interpreter processes.**  With a seed derivation that does not read the process, a seeded
+sample is split identically in every process (a run and its resumption, every data-loader worker, training and
+inference) -/
+theorem split_deterministic_across_processes (d : SeedFn) (hd : ∀ p₁ p₂ f s, d p₁ f s = d p₂ f s) (p₁ p₂ : Proc)
+    (src : Sources) (cfg : Cfg) (fuel nrow ncol : Nat) (filename slice : List Nat) (mask acs : Grid) (k : List Int) :
+    forwardGaussianIn d p₁ src cfg fuel nrow ncol filename slice mask acs k =
+      forwardGaussianIn d p₂ src cfg fuel nrow ncol filename slice mask acs k ∧
+    forwardUniformIn d p₁ src cfg nrow ncol filename slice mask acs k =
+      forwardUniformIn d p₂ src cfg nrow ncol filename slice mask acs k := by
+  simp only [forwardGaussianIn, forwardUniformIn, hd p₁ p₂ filename slice, and_self]
+
+/-- the derivation of the code as it is (`Bridge/C11.lean`: `seed_of_code_eq`, `seed_calls_ok`) does not read the process… -/
+theorem seed_of_code_process_free (p₁ p₂ : Proc) (f s : List Nat) : seedOfCode p₁ f s = seedOfCode p₂ f s := rfl
+
+/-- …and `forward…In seedOfCode` is the seeded `forward…` the driver executes, in every process -/
+theorem forward_in_code_eq (p : Proc) (src : Sources) (cfg : Cfg) (h : cfg.useSeed = true) (amb : Ambient)
+    (fuel nrow ncol : Nat) (filename slice : List Nat) (mask acs : Grid) (k : List Int) :
+    forwardGaussianIn seedOfCode p src cfg fuel nrow ncol filename slice mask acs k =
+      forwardGaussian src cfg amb fuel nrow ncol filename slice mask acs k ∧
+    forwardUniformIn seedOfCode p src cfg nrow ncol filename slice mask acs k =
+      forwardUniform src cfg amb nrow ncol filename slice mask acs k := by
+  simp only [forwardGaussianIn, forwardGaussian, forwardUniformIn, forwardUniform, seedOfCode, h, if_true, and_self]
+
+/-- a derivation through a per-process salt (Python's `hash` of a string) splits the same sample differently in two
+processes -/
+theorem salted_seed_violates : ∃ (src : Sources) (cfg : Cfg) (p₁ p₂ : Proc),
+    forwardGaussianIn seedSalted p₁ src cfg 1 1 2 [102] [49] [true, true] (zeros 2) [] ≠
+    forwardGaussianIn seedSalted p₂ src cfg 1 1 2 [102] [49] [true, true] (zeros 2) [] :=
+  ⟨{ ratioIdx := fun _ _ => 0, choice := fun _ _ _ => [],
+     candidates := fun s _ _ _ => if s % 2 = 0 then [(0, 0)] else [(0, 1)] },
+   { keep := false, a0 := 0, a1 := 0, useSeed := true, request := fun _ _ => 0, nRatios := 1 },
+   { salt := 0 }, { salt := 1 }, by decide⟩
+
+/-- **Every reader of the split keys.**  For every site table passing `engineSiteOk` (`Bridge/C11.lean`:
+`engine_sites_ok` for the eight readers found under `direct/nn`) and every transform tail passing `plumbingOk`
+against the canonical key table: what a site trains on is the masked k-space restricted to the input mask, the mask
+it passes on (if any) is the input mask, what a `_do_iteration` projects on is the target mask — and it does so
+exactly under the condition `engineUsesSplit`. -/
+theorem engine_sites_sound (tail : List KeyOp) (sites : List EngineSite) (hs : sites.all engineSiteOk = true)
+    (r : EngineReads) (hr : r.trainK = "input_kspace" ∧ r.trainMask = "input_sampling_mask" ∧
+      r.project = "target_sampling_mask") (hp : plumbingOk tail r = true) (e : Env) :
+    ∃ smp, runOps tail preTail = some smp ∧ ∀ s ∈ sites,
+      (sget smp s.trainK).bind (denoteK e) = some (applyMaskK e.cells e.input e.masked) ∧
+      (s.trainMask ≠ "" → sget smp s.trainMask = some (.splitMask true)) ∧
+      (s.iteration = true → sget smp s.project = some (.splitMask false)) ∧
+      s.cond = (if s.joint then "ssl&train" else "train") := by
+  obtain ⟨smp, h0, h1, _, h3, h4, _⟩ := ssl_plumbing_sound tail r hp e
+  refine ⟨smp, h0, ?_⟩
+  intro s hsm
+  have hk := List.all_eq_true.mp hs s hsm
+  simp only [engineSiteOk, Bool.and_eq_true, Bool.or_eq_true, beq_iff_eq, Bool.not_eq_true'] at hk
+  obtain ⟨⟨⟨⟨hc, htk⟩, _⟩, hm⟩, hpj⟩ := hk
+  refine ⟨by rw [htk, ← hr.1]; exact h1, ?_, ?_, hc⟩
+  · intro hne
+    rcases hm with ⟨hm1, _⟩ | ⟨⟨_, hm1⟩, _⟩
+    · rw [hm1, ← hr.2.1]; exact h3
+    · exact absurd hm1 hne
+  · intro hit
+    rw [hit] at hpj
+    simp only [if_true] at hpj
+    rw [hpj, ← hr.2.2]; exact h4
+
+/-- what the condition means: an SSL engine uses the split input whenever it trains, a joint engine only on `is_ssl`
+samples, and outside training nobody does -/
+theorem engine_uses_split_spec (joint train isSsl : Bool) :
+    (engineUsesSplit joint false isSsl = false) ∧ (engineUsesSplit false true isSsl = true) ∧
+    (engineUsesSplit true true isSsl = isSsl) := by
+  cases isSsl <;> simp [engineUsesSplit]
+
+/-- **Admissible ratios.**  For a ratio the constructor accepts (`0 < p/q < 1`) the requested counts stay inside
+the mask: `1 ≤ ⌈S·ρ⌉ ≤ S` for a non-empty mask and `0 ≤ ⌊S·ρ⌋ < S` (hence both parts of a uniform split of ≥ 1 free
+cells… the input keeps at least one free cell) -/
+theorem ratio_counts_in_range (S p q : Int) (hv : ratioValid p q = true) (hS : 0 < S) :
+    1 ≤ ratioCeil S p q ∧ ratioCeil S p q ≤ S ∧ 0 ≤ ratioFloor S p q ∧ ratioFloor S p q < S := by
+  simp only [ratioValid, Bool.and_eq_true, decide_eq_true_eq] at hv
+  obtain ⟨hp, hpq⟩ := hv
+  have hq : 0 < q := by omega
+  have hc := ratio_ceil_spec S p q hq
+  have hf := ratio_floor_spec S p q hq
+  have hsp : 0 < S * p := Int.mul_pos hS hp
+  have hsq : S * p < S * q := Int.mul_lt_mul_of_pos_left hpq hS
+  refine ⟨?_, ?_, ?_, ?_⟩
+  · by_contra hn
+    have : ratioCeil S p q * q ≤ 0 := Int.mul_nonpos_of_nonpos_of_nonneg (by omega) (by omega)
+    omega
+  · by_contra hn
+    have : S * q ≤ (ratioCeil S p q - 1) * q := Int.mul_le_mul_of_nonneg_right (by omega) (by omega)
+    omega
+  · by_contra hn
+    have : (ratioFloor S p q + 1) * q ≤ 0 := Int.mul_nonpos_of_nonpos_of_nonneg (by omega) (by omega)
+    omega
+  · by_contra hn
+    have : S * q ≤ ratioFloor S p q * q := Int.mul_le_mul_of_nonneg_right (by omega) (by omega)
+    omega
+
+/-- a ratio of exactly 0 or 1 (which the constructor rejects) would ask for nothing / for everything -/
+theorem ratio_edge_rejected : ratioValid 0 1 = false ∧ ratioValid 1 1 = false ∧ ratioValid 3 2 = false ∧
+    ratioValid (-1) 4 = false ∧ ratioValid 1 1000 = true ∧ ratioValid 999 1000 = true := by decide
+
 /-! ## non-vacuity: the hypotheses are met by concrete runs of the same definitions -/
+example : stateWritesOk [{ func := "MaskSplitter.__init__", method := "__init__", scope := "self", target := "rng", how := "assign" }] = true ∧
+    stateWritesOk [{ func := "MaskSplitter._split_sample", method := "_split_sample", scope := "self", target := "_split_cache",
+                     how := "subscript" }] = false ∧
+    stateWritesOk [{ func := "fill:uniform_fill", method := "uniform_fill", scope := "decorator", target := "functools.lru_cache", how := "cache" }] = false := by decide
+example : seedCallsOk ["tuple", "map", "ord", "str", "int", "np.mean"] = true ∧ seedCallsOk ["hash", "str", "int"] = false := by decide
+example : runHist (κ := Nat) none 0 (fun n : Nat => n + 1) [] [1, 2, 1] = [2, 3, 2] := by decide
 
 /-- 2×3 grid, 5 sampled cells: concrete Gaussian runs (plain, keep_acs, protected region + capped request) -/
 example : gaussianSplit false 0 0 2 3 [true, true, false, true, true, true] (zeros 6) 1
